@@ -1,8 +1,8 @@
 (* ConcData.v — the fine lock-step model of Model/Conc.v instrumented with DATA for one series s, used to mechanise
    the step from the fine to the coarse model (C08_atomic_read_fine).  Model stratum: definitions only.
 
-   Tracked locations: the segment's node tree of series s and every cached profile tree (restriction: all threads
-   work on the one series s, so every tree belongs to it).  The content of a tracked location is the list of the
+   Tracked locations of series s: the segment's node tree of s and the cached profile trees that belong to s
+   ([tree_series]); threads of other series touch other locations and other segment locks.  The content of a tracked location is the list of the
    thread numbers that wrote it, in write order (a Put merges its profile into the bucket's tree: the list IS the
    content, merge being addition).  A write by thread i appends i; a read by the reader thread g records what it
    saw.  Ghost fields: the order in which writers entered their write sections, the executed prefix of every
@@ -10,10 +10,25 @@
 From Pyro Require Export Model.Base Model.Conc.
 Open Scope nat_scope.
 
+(* Every cached profile tree belongs to one series (its key is series:depth:time).  Trees are numbered; the series a
+   tree number belongs to is the exponent of 2 in (t + 1), so that every series owns unboundedly many trees:
+   tree_id s j = 2^s * (2 j + 1) - 1 is the j-th tree of series s. *)
+Fixpoint v2 (fuel n : nat) : nat :=
+  match fuel with
+  | O => 0
+  | S f => match n with
+           | O => 0
+           | _ => if Nat.even n then S (v2 f (Nat.div2 n)) else 0
+           end
+  end.
+Definition tree_series (t : nat) : nat := v2 (S t) (S t).
+Definition tree_id (s j : nat) : nat := 2 ^ s * (2 * j + 1) - 1.
+
+(* the locations of series s: its segment tree and the profile trees it owns *)
 Definition tracked (s : nat) (x : locid) : bool :=
   match x with
   | LocSegTree s' => Nat.eqb s' s
-  | LocTree _ => true
+  | LocTree t => Nat.eqb (tree_series t) s
   | _ => false
   end.
 
@@ -158,3 +173,27 @@ Definition get_core (s : nat) (trees : list nat) : thread :=
   locked (LSeg s) MR
     (Acc (LocSegTree s) false :: Acc (LocSegTree s) false ::
      flat_map (fun t => locked (LTree t) MR [Acc (LocTree t) false]) trees).
+
+(* Storage.Get for a selector that matches several series (sel: the matching series with the trees covering the range,
+   in the order of the segment keys): the loop over the segment keys takes, for every series, segments.Get,
+   AggregationType (a read section of its own) and ONE GetWithTimeline read section — one read section per series, no
+   lock spanning two series; afterwards the metadata getters of the last segment. *)
+Definition selector_section (p : nat * list nat) : thread :=
+  cache_get_miss CSegs [] ++
+  locked (LSeg (fst p)) MR [Acc (LocSegMeta (fst p)) false] ++
+  locked (LSeg (fst p)) MR (Acc (LocSegTree (fst p)) false :: Acc (LocSegTree (fst p)) false ::
+     flat_map (fun t => cache_get_hit CTrees ++ locked (LTree t) MR [Acc (LocTree t) false]) (snd p)).
+Definition selector_tail (sel : list (nat * list nat)) : thread :=
+  match rev sel with
+  | [] => []
+  | p :: _ => locked (LSeg (fst p)) MR [Acc (LocSegMeta (fst p)) false]
+  end.
+Definition get_selector (ds : list nat) (sel : list (nat * list nat)) : thread :=
+  flat_map (fun d => cache_get_miss CDims []) ds ++
+  flat_map (fun d => locked (LDim d) MR [Acc (LocDimKeys d) false]) ds ++
+  flat_map selector_section sel ++
+  selector_tail sel.
+
+(* every section reads trees of its own series only, and no series is matched twice *)
+Definition selector_wf (sel : list (nat * list nat)) : Prop :=
+  NoDup (map fst sel) /\ forall p, In p sel -> forall t, In t (snd p) -> tree_series t = fst p.
